@@ -344,6 +344,8 @@ def check(ctx):
     check_basis_objects(ctx, "C12", np.random.default_rng(ctx.seed + 77))
     from basisobj import check_handover_then_compute
     check_handover_then_compute(ctx, "C12", np.random.default_rng(ctx.seed + 81))
+    from basisobj import check_estimate_then_run
+    check_estimate_then_run(ctx, "C12", np.random.default_rng(ctx.seed + 82))
     multi_object(ctx, rng)
     twin_supercells(ctx, np.random.default_rng(ctx.seed + 77))
     solver_reuse(ctx, np.random.default_rng(ctx.seed + 78))
